@@ -171,28 +171,32 @@ Proof. intros H. cbn [sanity_check_n_modes]. destruct (Z.ltb_spec z 1); [lia|ref
 Lemma n_modes_bool : sanity_check_n_modes (VBool false) = Err EValueError /\ sanity_check_n_modes (VBool true) = Ok tt.
 Proof. split; reflexivity. Qed.
 
-Lemma n_modes_float_outside f :
-  (PrimFloat.ltb 0 f && PrimFloat.leb f 1)%float = false -> sanity_check_n_modes (VFloat f) = Err EValueError.
+(* 0 < f <= 1.0 in binary64 comparisons (false for nan) *)
+Definition in_unit_interval (f : float) : bool := (PrimFloat.ltb 0 f && PrimFloat.leb f 1)%float.
+Definition floats_outside : list float := [0; 1.5; -0.5; nan; infinity; neg_infinity; 0x1.0000000000001p+0; -0]%float.
+Definition floats_inside : list float := [1; 0.5; 0x1p-1074; 0.999]%float.
+
+Lemma n_modes_float_outside f : in_unit_interval f = false -> sanity_check_n_modes (VFloat f) = Err EValueError.
 Proof.
-  intros H. cbn [sanity_check_n_modes].
+  unfold in_unit_interval. intros H. cbn [sanity_check_n_modes].
   change (float_ofZ 0) with 0%float. change (0x1.0000000000000p+0)%float with 1%float.
   now rewrite H.
 Qed.
 
-Lemma n_modes_float_inside f :
-  (PrimFloat.ltb 0 f && PrimFloat.leb f 1)%float = true -> sanity_check_n_modes (VFloat f) = Ok tt.
+Lemma n_modes_float_inside f : in_unit_interval f = true -> sanity_check_n_modes (VFloat f) = Ok tt.
 Proof.
-  intros H. cbn [sanity_check_n_modes].
+  unfold in_unit_interval. intros H. cbn [sanity_check_n_modes].
   change (float_ofZ 0) with 0%float. change (0x1.0000000000000p+0)%float with 1%float.
   now rewrite H.
 Qed.
 
 Lemma n_modes_float_examples :
-  sanity_check_n_modes (VFloat 0%float) = Err EValueError /\ sanity_check_n_modes (VFloat 1.5%float) = Err EValueError /\
-  sanity_check_n_modes (VFloat (-0.5)%float) = Err EValueError /\ sanity_check_n_modes (VFloat nan) = Err EValueError /\
-  sanity_check_n_modes (VFloat infinity) = Err EValueError /\
-  sanity_check_n_modes (VFloat 1%float) = Ok tt /\ sanity_check_n_modes (VFloat 0.5%float) = Ok tt.
-Proof. repeat split; vm_compute; reflexivity. Qed.
+  (forall f, In f floats_outside -> sanity_check_n_modes (VFloat f) = Err EValueError) /\
+  (forall f, In f floats_inside -> sanity_check_n_modes (VFloat f) = Ok tt).
+Proof.
+  split; intros f Hf; cbn [floats_outside floats_inside In] in Hf;
+    repeat (destruct Hf as [<-|Hf]; [vm_compute; reflexivity|]); destruct Hf.
+Qed.
 
 Lemma n_modes_string s : s <> "all"%string -> sanity_check_n_modes (VStr s) = Err EValueError.
 Proof.
